@@ -140,7 +140,9 @@ func ExecSched(sc sim.Script) *sim.Outcome {
 				dc[k] = v
 			}
 			dc[op.P] = string(op.V)
-			dm := util.NewMerklePatriciaTrie(util.NewMemoryNodeDB(), util.Sequence(t.ver), nil, statecache.NewEmpty())
+			// the donor store iterates in key order: MemoryNodeDB.Iterate follows Go map order, which would make the
+			// order of MergeDB's writes (and with it the interleaving) differ from one execution to the next
+			dm := util.NewMerklePatriciaTrie(&orderedDB{MemoryNodeDB: util.NewMemoryNodeDB()}, util.Sequence(t.ver), nil, statecache.NewEmpty())
 			for _, k := range sim.SortedKeys(dc) {
 				if _, err := dm.Insert(util.Path(k), val([]byte(dc[k]))); err != nil {
 					panic(err)
@@ -237,10 +239,14 @@ func ExecSched(sc sim.Script) *sim.Outcome {
 					record = false
 					ctx, cancel := context.WithCancel(context.Background())
 					cancel()
-					o := simrt.NewOpaque()
-					t.mpt.SaveChanges(ctx, &signalDB{NodeDB: saveDB, o: o}, false)
-					o.Wait()
-					o.Close()
+					// The writer goroutine is held at its store call until SaveChanges has returned: otherwise Go's
+					// select could find "done" ready as well and pick either branch (they differ in scheduling points).
+					gate, done := simrt.NewOpaque(), simrt.NewOpaque()
+					t.mpt.SaveChanges(ctx, &signalDB{NodeDB: saveDB, gate: gate, done: done}, false)
+					gate.Signal()
+					done.Wait()
+					gate.Close()
+					done.Close()
 				case "root":
 					record = false
 					t.mpt.GetRoot()
@@ -355,15 +361,62 @@ func ExecSched(sc sim.Script) *sim.Outcome {
 	return finishSched(w, res)
 }
 
+// orderedDB is a memory node store whose Iterate visits the nodes in key order.
+type orderedDB struct {
+	*util.MemoryNodeDB
+	keys map[string]bool
+}
+
+func (o *orderedDB) PutNode(key util.Key, node util.Node) error {
+	if o.keys == nil {
+		o.keys = map[string]bool{}
+	}
+	o.keys[string(key)] = true
+	return o.MemoryNodeDB.PutNode(key, node)
+}
+
+func (o *orderedDB) MultiPutNode(keys []util.Key, nodes []util.Node) error {
+	for i := range keys {
+		if err := o.PutNode(keys[i], nodes[i]); err != nil {
+			return err
+		}
+	}
+	return nil
+}
+
+func (o *orderedDB) DeleteNode(key util.Key) error {
+	delete(o.keys, string(key))
+	return o.MemoryNodeDB.DeleteNode(key)
+}
+
+func (o *orderedDB) Iterate(ctx context.Context, handler util.NodeDBIteratorHandler) error {
+	ks := make([]string, 0, len(o.keys))
+	for k := range o.keys {
+		ks = append(ks, k)
+	}
+	sort.Strings(ks)
+	for _, k := range ks {
+		n, err := o.MemoryNodeDB.GetNode(util.Key(k))
+		if err != nil {
+			continue
+		}
+		if err := handler(ctx, util.Key(k), n); err != nil {
+			return err
+		}
+	}
+	return nil
+}
+
 // signalDB tells the waiting task when SaveChanges' writer goroutine has delivered its batch.
 type signalDB struct {
 	util.NodeDB
-	o *simrt.Opaque
+	gate, done *simrt.Opaque
 }
 
 func (s *signalDB) MultiPutNode(keys []util.Key, nodes []util.Node) error {
+	s.gate.Wait()
 	err := s.NodeDB.MultiPutNode(keys, nodes)
-	s.o.Signal()
+	s.done.Signal()
 	return err
 }
 
